@@ -92,6 +92,8 @@ def to_fault(kind, kw):
 
 
 OPS = ['upload', 'upload_stream', 'download', 'download_stream', 'exists', 'exists-missing', 'delete', 'delete-missing', 'list']
+# the streams as the repository hands them over when a bandwidth limit is set: progress wrapper around the limiter
+LOCAL_OPS = OPS + ['upload_stream-limited', 'download_stream-limited']
 
 
 class Src(io.BytesIO):
@@ -118,6 +120,20 @@ async def run_op(be, fake_or_dir, op, state):
         await _c(be.upload_stream(NAME, src, len(DATA), CHUNK))
         model[NAME] = DATA
         return None, model, src
+    if op == 'upload_stream-limited':
+        import replicat.utils as U
+        src = Src(DATA)
+        w = U.TQDMIOReader(U.RateLimitedIO(10**12).wrap(src), desc='', total=len(DATA), position=0, disable=True)
+        await _c(be.upload_stream(NAME, w, len(DATA), CHUNK))
+        model[NAME] = DATA
+        return None, model, src
+    if op == 'download_stream-limited':
+        import replicat.utils as U
+        dst = io.BytesIO(b'junk that was in the destination before' * 3)
+        dst.seek(0)
+        w = U.TQDMIOWriter(U.RateLimitedIO(10**12).wrap(dst), desc='', total=None, position=0, disable=True)
+        await _c(be.download_stream(NAME, w, CHUNK))
+        return dst.getvalue(), model, None
     if op == 'download':
         return await _c(be.download(NAME)), model, None
     if op == 'download_stream':
@@ -154,15 +170,15 @@ async def _c(x):
 
 def initial_state(op):
     st = {'data/aa/one': b'1', 'data/ab/two': b'22', 'data/zz/three': b'333', 'snapshots/s': b's'}
-    if op in ('download', 'download_stream', 'exists', 'delete'):
+    if op in ('download', 'download_stream', 'download_stream-limited', 'exists', 'delete'):
         st[NAME] = DATA
-    if op in ('upload', 'upload_stream'):
+    if op in ('upload', 'upload_stream', 'upload_stream-limited'):
         st[NAME] = OLD     # overwrite of an existing, longer object
     return st
 
 
 def expected_result(op, state):
-    return {'download': DATA, 'download_stream': DATA, 'exists': True, 'exists-missing': False,
+    return {'download': DATA, 'download_stream': DATA, 'download_stream-limited': DATA, 'exists': True, 'exists-missing': False,
             'list': sorted(k for k in state if k.startswith('data/'))}.get(op)
 
 
@@ -687,7 +703,7 @@ def main():
             chk.violation(sig, d)
     for (kind, op, warm, _), (k, vs, b) in zip(hcases, []):
         pass
-    lops = [op for op in OPS]
+    lops = [op for op in LOCAL_OPS]
     for op, (k, vs, b) in zip(lops, common.pmap(local_op_cases, lops, ordered=True)):
         n += k
         budgets_all[f'local:{op}'] = b
